@@ -289,11 +289,11 @@ Proof.
 Qed.
 
 Theorem flatten_is_reshape_to_spec_shape sh s e s' e' op :
-  sh <> [] -> fwd_flatten sh s e = Some op ->
+  fwd_flatten sh s e = Some op ->
   wrap_dim (length sh) s = Some s' -> wrap_dim (length sh) e = Some e' ->
   fwd_reshape sh (map Z.of_nat (spec_flatten_shape sh s' e')) = Some op.
 Proof.
-  intros Hne F Ws We. destruct (flatten_matches_spec_partial sh s e op Hne F) as (s1 & e1 & Ws1 & We1 & _ & Eo & _).
+  intros F Ws We. destruct (flatten_matches_spec sh s e op F) as (s1 & e1 & Ws1 & We1 & _ & Eo & _).
   rewrite Ws in Ws1. rewrite We in We1. injection Ws1 as <-. injection We1 as <-. rewrite <- Eo.
   now apply flatten_is_reshape in F.
 Qed.
